@@ -50,6 +50,9 @@ def main():
         caught = {p: v for p, v in res.items() if v['exit'] == 1}
         own = sid[:3]
         meta = json.load(open(os.path.join(VERIF, 'seeded', sid, 'meta.json')))
+        if meta.get('status') == 'retired':
+            print('{}: retired (no longer demonstrated on the repaired tree) -> checker {}'.format(sid, 'reports ' + str(sorted(caught)) if caught else 'silent'))
+            continue
         if meta.get('status') == 'neutralised':
             print('{}: neutralised by fix {} (demo passes on the repaired tree) -> checker {}'.format(sid, meta['neutralised_by'], 'SILENT (correct)' if not caught else 'ALARMS (false alarm!) ' + str(sorted(caught))))
             continue
